@@ -4,6 +4,8 @@ import AbraModel.Drv.Util
    Request: `render print v | render println v | render str v | render cat v w`
    value  := I <int> | B T | B F | N | S <hex utf-8> | A <n> v1 … vn | T <n> v1 … vn (n = 2,3,4)
            | SOME v | NONE | OK v | ERR v
+           | render multi <stmt> ; <stmt> ; …    (one program rendering the same values several times)
+   stmt   := print v | println v | str v | chain <n> v1 … vn | lit <hex> | eq v w   (`print(v == w)`)
    Answer: hex of the UTF-8 text handed to print_string (`-` for the empty text). -/
 namespace Abra.Drv.RenderDrv
 open Abra.Lib.Render Abra.Drv
@@ -48,6 +50,56 @@ end
 
 def out (s : String) : String := hex s.toUTF8.toList
 
+/-- `Equal.equal` on values of the same built-in type (string/int/bool equality, arrays and tuples elementwise) -/
+partial def valEq : Val → Val → Bool
+  | .int a, .int b => a == b
+  | .bool a, .bool b => a == b
+  | .nil, .nil => true
+  | .str a, .str b => a == b
+  | .arr xs, .arr ys => xs.length == ys.length && (List.zipWith valEq xs ys).all id
+  | .tup2 a b, .tup2 c d => valEq a c && valEq b d
+  | .tup3 a b c, .tup3 d e f => valEq a d && valEq b e && valEq c f
+  | .tup4 a b c d, .tup4 e f g h => valEq a e && valEq b f && valEq c g && valEq d h
+  | _, _ => false
+
+def splitSemi (toks : List String) : List (List String) :=
+  (toks.foldr (fun t (acc : List (List String)) =>
+    if t == ";" then [] :: acc
+    else match acc with
+      | [] => [[t]]
+      | cur :: more => (t :: cur) :: more) [[]]).filter (· ≠ [])
+
+def parseStmt : List String → Option Stmt
+  | "print" :: toks => match parseVal toks with
+    | some (v, []) => some (.print v)
+    | _ => none
+  | "println" :: toks => match parseVal toks with
+    | some (v, []) => some (.println v)
+    | _ => none
+  | "str" :: toks => match parseVal toks with
+    | some (v, []) => some (.str v)
+    | _ => none
+  | "chain" :: n :: toks => match n.toNat? with
+    | some n => match parseVals n toks with
+      | some (vs, []) => some (.chain vs)
+      | _ => none
+    | none => none
+  | ["lit", hx] => match unhex hx with
+    | some bs => (String.fromUTF8? (ByteArray.mk bs.toArray)).map .lit
+    | none => none
+  | "eq" :: toks => match parseVal toks with
+    | some (v, rest) => match parseVal rest with
+      | some (w, []) => some (.print (.bool (valEq v w)))
+      | _ => none
+    | _ => none
+  | _ => none
+
+def parseStmts : List (List String) → Option (List Stmt)
+  | [] => some []
+  | s :: rest => match parseStmt s, parseStmts rest with
+    | some x, some xs => some (x :: xs)
+    | _, _ => none
+
 def handleRender : List String → String
   | "print" :: toks => match parseVal toks with
     | some (v, []) => out (printed v)
@@ -58,6 +110,9 @@ def handleRender : List String → String
   | "str" :: toks => match parseVal toks with
     | some (v, []) => out (strV v)
     | _ => "bad-op"
+  | "multi" :: toks => match parseStmts (splitSemi toks) with
+    | some l => out (emitAll l)
+    | none => "bad-op"
   | "cat" :: toks => match parseVal toks with
     | some (v, rest) => match parseVal rest with
       | some (w, []) => out (formatAppend v w)
